@@ -245,6 +245,10 @@ def run_behaviour(driver, beh):
                     known.append((k.fid, k.what))
                     # the real object no longer follows the spec state: stop this behaviour here
                     return 'ok', step, None, ops, known
+                if getattr(driver, 'known', None):
+                    # finding matched while the real object still follows the (as-is) model: go on
+                    known.extend(driver.known)
+                    driver.known = []
             if hasattr(driver, 'finish'):
                 driver.finish(beh[-1][1])
             return 'ok', len(beh) - 1, None, ops, known
